@@ -42,6 +42,39 @@ mod verif_kani_scanner {
         std::mem::forget(b3);
     }
 
+    struct Chunky2 { data: [u8; 2], pos: usize, budget: u8 }
+    impl Read for Chunky2 {
+        fn read(&mut self, buf: &mut [u8]) -> std::io::Result<usize> {
+            if self.budget > 0 && kani::any() { self.budget -= 1; return Err(Error::from(ErrorKind::Interrupted)); }
+            if self.pos >= 2 || buf.is_empty() { return Ok(0); }
+            let max = core::cmp::min(buf.len(), 2 - self.pos);
+            let n: usize = kani::any();
+            kani::assume(n >= 1 && n <= max);
+            let mut i = 0;
+            while i < n { buf[i] = self.data[self.pos + i]; i += 1; }
+            self.pos += n;
+            Ok(n)
+        }
+    }
+
+    /// the same reader-contract check on a 2-byte stream with <= 1 Interrupted result (bounded; the quick-tier variant)
+    #[kani::proof]
+    #[kani::unwind(4)]
+    #[kani::stub(alloc::fmt::format, stub_format)]
+    fn k_reader_chunks_small() {
+        let data: [u8; 2] = kani::any();
+        let mut r = Chunky2 { data, pos: 0, budget: 1 };
+        let mut sc = Scanner::make(&mut r).unwrap();
+        assert!(!sc.is_eof && sc.cur == data[0]);
+        let b1 = sc.read_byte();
+        assert!(matches!(b1, Ok(b) if b == data[1]));
+        assert!(!sc.is_eof);
+        let b2 = sc.read_byte();
+        kani::cover!(b2.is_err());
+        assert!(b2.is_err() && sc.is_eof);
+        std::mem::forget(b2);
+    }
+
     /// cross-discharge of the byte-class contracts the Verus units assume for the scanner predicates (complete over
     /// all 256 byte values, on the real methods through a 1-byte slice reader), incl. every is_any_of literal in use
     #[kani::proof]
